@@ -173,12 +173,14 @@ def slotPackers (pm : PM) : List Packer := pm.slots.filterMap id
 
 def sumLen (bs : List Blob) : Nat := (bs.map (·.len)).sum
 
-def Blob.key (b : Blob) : Nat × Nat × Nat × Nat := ((match b.tpe with | .data => 0 | .tree => 1), b.id, b.len, b.ulen)
+def BlobType.code : BlobType → Nat
+  | .data => 0
+  | .tree => 1
 
+/-- lexicographic order on (type, id, len, ulen); only used to compare multisets by sorting -/
 def Blob.le (a b : Blob) : Bool :=
-  let x := a.key; let y := b.key
-  x.1 < y.1 || (x.1 == y.1 && (x.2.1 < y.2.1 || (x.2.1 == y.2.1 && (x.2.2.1 < y.2.2.1 ||
-    (x.2.2.1 == y.2.2.1 && x.2.2.2 ≤ y.2.2.2)))))
+  decide (a.tpe.code < b.tpe.code ∨ (a.tpe.code = b.tpe.code ∧ (a.id < b.id ∨ (a.id = b.id ∧
+    (a.len < b.len ∨ (a.len = b.len ∧ a.ulen ≤ b.ulen))))))
 
 /-- same multiset of blobs (sorting makes the check n log n; `sameBlobs_perm` links it to `Perm`) -/
 def sameBlobs (a b : List Blob) : Bool := a.mergeSort Blob.le == b.mergeSort Blob.le
